@@ -640,8 +640,23 @@ func (e *Enc) contractCallSig(fr *Frame, fc *FuncContract, callee *ssa.Function,
 	pre := cur.st.clone()
 	k := e.callCount[label]
 	e.callCount[label] = k + 1
+	letNames := map[string]bool{}
+	for _, l := range fc.Lets {
+		letNames[l.Name] = true
+	}
+	mentionsLet := func(x SExpr) bool {
+		for n := range callNames(x, map[string]bool{}) {
+			if letNames[n] {
+				return true
+			}
+		}
+		return false
+	}
 	// requires
 	for i, c := range fc.Requires {
+		if mentionsLet(c.Expr) {
+			continue // definitional clause about the callee's own let-bound functions
+		}
 		t, err := e.evalSpec(c.Expr, &SpecCtx{e: e, pkg: fc.Pkg, pos: fcPos(callee), params: env, cur: pre, old: pre, fc: fc})
 		if err != nil {
 			e.errorf("%s: requires of %s: %v", fr.name, fc.Name, err)
@@ -726,7 +741,7 @@ func (e *Enc) contractCallSig(fr *Frame, fc *FuncContract, callee *ssa.Function,
 	}
 	for _, c := range fc.Ensures {
 		for _, part := range splitConjuncts(c.Expr) {
-			if mentionsCallGhosts(part) {
+			if mentionsCallGhosts(part) || mentionsLet(part) {
 				// postconditions about the callee's own direct calls say nothing in the caller
 				continue
 			}
